@@ -297,6 +297,9 @@ func init() {
 				} else if i%12 == 7 {
 					prog = g.saveAllDebtProgram()
 					c.count("directed:saveAllDebt")
+				} else if i%12 == 10 {
+					prog = g.cappedWorldThenProgram()
+					c.count("directed:cappedWorldThen")
 				} else {
 					prog = g.Program()
 				}
